@@ -463,25 +463,33 @@ class PlExpr:
         f = agg_fns(self.nv.sort)
         g = _expr_id(self)
         _ax("polars: x.min()/x.max() ignore nulls and are null if there is no non-null value")
-        return self._agg("min", NV(f["nn_count"](g) == 0, f["nn_min"](g)), self.pltype)
+        return self._agg("min", NV(f["nn_count"](g) == 0, f["nn_all"](g) if self.nv.sort == BOOL else f["nn_min"](g)), self.pltype)
 
     def max(self):
         f = agg_fns(self.nv.sort)
         g = _expr_id(self)
         _ax("polars: x.min()/x.max() ignore nulls and are null if there is no non-null value")
-        return self._agg("max", NV(f["nn_count"](g) == 0, f["nn_max"](g)), self.pltype)
+        return self._agg("max", NV(f["nn_count"](g) == 0, f["nn_any"](g) if self.nv.sort == BOOL else f["nn_max"](g)), self.pltype)
 
     def any(self, ignore_nulls=True):
         f = agg_fns(BOOL)
         g = _expr_id(self)
+        some_true = z3.And(f["nn_count"](g) > 0, f["nn_any"](g))
+        if not ignore_nulls:
+            _ax("polars: x.any(ignore_nulls=False) is the Kleene OR over the group (null if no value is true and some value is null)")
+            return self._agg("any", NV(z3.And(z3.Not(some_true), f["nn_count"](g) < G_ROWS), some_true), Boolean)
         _ax("polars: x.any() ignores nulls; False if there is no non-null value (never null)")
-        return self._agg("any", NV(False, z3.And(f["nn_count"](g) > 0, f["nn_any"](g))), Boolean)
+        return self._agg("any", NV(False, some_true), Boolean)
 
     def all(self, ignore_nulls=True):
         f = agg_fns(BOOL)
         g = _expr_id(self)
+        all_true = z3.Or(f["nn_count"](g) == 0, f["nn_all"](g))
+        if not ignore_nulls:
+            _ax("polars: x.all(ignore_nulls=False) is the Kleene AND over the group (null if no value is false and some value is null)")
+            return self._agg("all", NV(z3.And(all_true, f["nn_count"](g) < G_ROWS), all_true), Boolean)
         _ax("polars: x.all() ignores nulls; True if there is no non-null value (never null)")
-        return self._agg("all", NV(False, z3.Or(f["nn_count"](g) == 0, f["nn_all"](g))), Boolean)
+        return self._agg("all", NV(False, all_true), Boolean)
 
     def first(self):
         if self.kind == "agg":
@@ -512,6 +520,9 @@ class PlExpr:
         return self._win("sort_by", by=_node_of(by), descending=_node_of(descending), nulls_last=_node_of(nulls_last))
 
     def over(self, partition_by=None, *more, order_by=None, **kw):
+        if self.kind == "agg" and not order_by:
+            _ax("polars: agg_expr.over(partition) gives every row the aggregate of its partition")
+            return PlExpr(self.nv, "row", ("over", self.node, _node_of(partition_by), None), self.pltype, self.order_id)
         return self._win("over", partition_by=_node_of(partition_by), order_by=_node_of(order_by))
 
     def alias(self, name):
